@@ -35,6 +35,7 @@ STEP_TIMEOUT = 6.0
 REFUSAL = "PyDelphin could not validate the input and refused to send it to ACE"
 BASE_TEXTS = ["incomplete output from ACE", ":error", ":p-input", ":p-tokens", ":results", ":chart", ":surface"]
 STD_KEYS = {"NOTES", "WARNINGS", "ERRORS", "run", "input", "surface", "results", "tokens", "keys", "task"}
+DECODE_ERRORS = ("TypeError", "ValueError", "AttributeError")
 FRONTS = [("parser", True), ("parser", False), ("transferer", False), ("generator", True), ("generator", False)]
 
 
@@ -81,6 +82,8 @@ def sx_parts(front, tok, nres, ex):
 
 def answer_text(case, item):
     """the complete, well-formed answer of the processor for this input"""
+    if item.get("raw") is not None:
+        return item["raw"]
     front, tsdb = case["front"], case["tsdb"] and case["front"] != "transferer"
     tok, nres, ex = item["tok"], item.get("nres", 1), item.get("ex", {})
     out = []
@@ -140,6 +143,8 @@ def written(case, item):
 
 def expected_results(case, item):
     """naive statement of the results a complete answer stands for"""
+    if item.get("raw") is not None:
+        return item.get("raw_results", [])
     front, tsdb = case["front"], case["tsdb"] and case["front"] != "transferer"
     tok, nres, ex = item["tok"], item.get("nres", 1), item.get("ex", {})
     res = []
@@ -422,6 +427,8 @@ def observe(r):
     o = {"input": r.get("input"),
          "skipped": any(n.startswith("PyDelphin could not validate") for n in notes),
          "run": run.get("run-id") if isinstance(run, dict) else None,
+         # close() ran on the process of this response during the interaction: its run record carries `end`
+         "closed": isinstance(run, dict) and run.get("end") is not None,
          "notes": notes, "warnings": list(r.get("WARNINGS", [])), "errors": list(r.get("ERRORS", [])),
          "surface": r.get("surface"), "results": jsonable(r.get("results")),
          "extra": [[k, jsonable(v)] for k, v in r.items() if k not in STD_KEYS],
@@ -581,7 +588,7 @@ def ok_text(front, idx, rng):
 class C19(Check):
     pid = "C19"
     level = "proof"
-    quick_cases = 215
+    quick_cases = 265
     thorough_cases = 1700
     search_budget = {"quick": 150, "thorough": 2000}
     rule = ("distinct (front end, protocol, per-input behaviour/cut/exit policy) sessions with at least one "
@@ -598,7 +605,14 @@ class C19(Check):
                     "for what the processor read and wrote)",
                     "line attributes and S-expression tokens are computed from the real text by the harness"]
 
+    def extra_evidence(self):
+        return {"model_answers_unmodelled": getattr(self, "n_unmodelled", 0),
+                "shaped": "every compared session except the %d `unshaped` ones satisfied shapedItem "
+                          "(the model answered `unmodelled` nowhere else)" % len(unshaped_cases()),
+                "free_race_sessions_deterministic_block": len(free_race_cases())}
+
     def setup(self):
+        self.n_unmodelled = 0
         self.workdir = tempfile.mkdtemp(prefix="c19-", dir="/var/tmp")
 
     def teardown(self):
@@ -806,7 +820,7 @@ class C19(Check):
                          and it.get("tok") and it["tok"] in ev["swallowed"]]
             e["served"] = bool(reads)
             e["wrote"] = cps(reads[0]["line"]) if reads else (cps(swallowed[0]["swallowed"]) if swallowed else None)
-            e["eof"] = None
+            e["eof"] = bool(o.get("closed"))
             steps.append(e)
         runs = None if res.get("runs") is None else [{"id": r["id"], "ended": r["ended"], "note": r["note"]}
                                                       for r in res["runs"]]
@@ -828,6 +842,10 @@ class C19(Check):
             return {"expected_from_impl": exp, "model": ans}
         for k, (a, e) in enumerate(zip(ans["steps"], exp["steps"])):
             if "err" in a or "err" in e:
+                if a.get("err") == "unmodelled":
+                    self.n_unmodelled = getattr(self, "n_unmodelled", 0) + 1
+                if a.get("err") == "unmodelled" and e.get("err") in DECODE_ERRORS:
+                    continue      # the shapes on which the real _tsdb_response raises (unshaped sessions)
                 if a.get("err") != e.get("err"):
                     diffs.append({"step": k, "model": a, "impl": e})
                 continue
@@ -888,6 +906,10 @@ class C19(Check):
             if "aborted" in o:
                 continue
             if "err" in o:
+                if it.get("unshaped") and o["err"] in DECODE_ERRORS:
+                    # a LIVE processor answered with a shape ACE never produces (e.g. `(:results . 3)`): not one of
+                    # the property's failure patterns; the session must simply go on (checked on the next items)
+                    continue
                 fail("an interaction raises instead of returning a response", step=idx, error=o["err"])
                 continue
             if not o.get("is_response"):
@@ -1119,6 +1141,9 @@ class C19(Check):
         cs.extend(regression_cases())
         cs.extend(long_cases())
         cs.extend(unicode_cases())
+        cs.extend(unshaped_cases())
+        cs.extend(free_race_cases())
+        cs.extend(keeper_cases())
         if tier == "thorough":
             # every byte position of one answer per configuration
             for front, tsdb, show in configs:
@@ -1261,6 +1286,13 @@ class C19(Check):
                 inc("policy:%s" % policy_of(it))
             else:
                 inc("item:ok")
+        if res and is_free(case):
+            steps = res.get("steps", [])
+            for k, it in enumerate(case["items"][:-1]):
+                if policy_of(it) == "race" and k + 1 < len(steps) and case["items"][k + 1].get("tok"):
+                    nxt = steps[k + 1]
+                    if "err" not in nxt and "hang" not in nxt and "aborted" not in nxt:
+                        inc("race:next-input-" + ("served" if nxt.get("results") else "lost"))
         if res:
             for o in res.get("steps", []):
                 if "err" in o:
@@ -1408,6 +1440,70 @@ def unicode_cases():
             items.append(mk_item(2 * j + 1, front, text=["\u00a0[ %s\u3000x ]\u2003", "\uff3b y \uff3d [ %s ] \u3010 z \u3011",
                                                          "[ %s \u2028 x ]\x85"][j % 3] % ("i%dx" % (2 * j + 1))))
         cs.append(case("unicode-brackets", front, tsdb, items))
+    return cs
+
+
+def unshaped_cases():
+    """a live processor answering with S-expression shapes ACE never produces: the real `_tsdb_response` raises
+    TypeError / ValueError / AttributeError, the model answers `unmodelled` (hypothesis `shapedItem` of
+    `shaped_always_responds`); the session must go on aligned afterwards"""
+    cs = []
+    raws = ['(:results . 3)', '(:results . "x")', '(:results . ((:result-id . 0)))', '(:results . (3))',
+            '(:results . (((:a . 1) 5)))', '(:p-input . 3) (:results . ())', '(:p-tokens . (1 2)) (:results . ())']
+    for front in ("parser", "generator"):
+        for k, raw in enumerate(raws):
+            text = raw + ("\n\n\n" if front == "parser" else "\n")
+            it = mk_item(1, front)
+            it.update(raw=text, raw_results=[], unshaped=True, kind="unshaped")
+            cs.append({"kind": "unshaped", "front": front, "tsdb": True, "show": [False, False], "runnote": True,
+                       "exit_ok": 0, "process_item": k % 2 == 0,
+                       "items": [mk_item(0, front), it, mk_item(2, front, nres=2)]})
+    return cs
+
+
+def free_race_cases():
+    """exit right after a complete answer with NOTHING forced: the child lingers 0-30 ms with stdin open, the next
+    input follows after 0-10 ms; whether it is served by a restarted processor or lost to the dying one is a
+    race, both outcomes are legitimate; the oracle alone judges (no model comparison)"""
+    cs = []
+    timings = [(0, 0, 0), (0, 1, 0), (0, 3, 2), (1, 10, 0), (5, 30, 10), (0, 0, 10)]
+    for front, tsdb in FRONTS:
+        for k, (dc, de, pause) in enumerate(timings):
+            d1 = mk_item(1, front, "die", nres=2, die=die_spec("plain", 3, False, dc, de))
+            d4 = mk_item(4, front, "die", die=die_spec("plain", 5, False, de % 4, dc))
+            if pause:
+                d1["pause"] = pause
+            cs.append({"kind": "free-race", "front": front, "tsdb": tsdb, "show": [False, False], "runnote": True,
+                       "exit_ok": 0, "process_item": False,
+                       "items": [mk_item(0, front), d1, mk_item(2, front), mk_item(3, front), d4,
+                                 mk_item(5, front)]})
+    return cs
+
+
+def keeper_cases():
+    """deterministic versions of seeded changes that were caught: a failure on the LAST item followed by close();
+    cuts right after a blank inside a result line (default protocol)"""
+    cs = []
+
+    def case(kind, front, tsdb, items, **kw):
+        c = {"kind": kind, "front": front, "tsdb": tsdb, "show": [False, False], "items": items, "runnote": True,
+             "exit_ok": 0, "process_item": False}
+        c.update(kw)
+        return c
+    for front, tsdb in FRONTS:
+        base = {"front": front, "tsdb": tsdb, "show": [False, False]}
+        n = len(answer_text(base, mk_item(1, front, nres=2)))
+        for cut in (0, n // 2):
+            cs.append(case("dieLast-cut", front, tsdb,
+                           [mk_item(0, front), mk_item(1, front, "die", nres=2, die=die_spec(code=7, delay_exit=20),
+                                                       cut=cut, sync=True)], exit_ok=2))
+    for front in ("parser", "transferer", "generator"):
+        base = {"front": front, "tsdb": False, "show": [False, False]}
+        full = answer_text(base, mk_item(1, front, nres=2))
+        for cut in [m.end() for m in re.finditer(r" ", full)][::3]:
+            cs.append(case("cut-after-blank", front, False,
+                           [mk_item(0, front), mk_item(1, front, "die", nres=2, die=die_spec(delay_exit=20), cut=cut,
+                                                       sync=True), mk_item(2, front)]))
     return cs
 
 
